@@ -229,6 +229,12 @@ func init() {
 				add("shards-16-vs-1-conckeys", merge(base, p("k", 4, "ops", opPut|opDelete|opRestart, "conckeys", 1, "index", 1, "shards", 16, "b_shards", 1, "b_index", 3)))
 				add("batch-k3", merge(base, p("k", 3, "ops", opPut|opDelete|opBatch, "vlens", 2, "index", 3, "shards", 1, "b_index", 1, "b_shards", 2)))
 			}
+			// three keys over one vs two shards: the merged iteration (heap of per-shard iterators) has to agree
+			// with the single-shard one, including after a partial pass + Rewind and after Seek
+			add("three-keys-1-vs-2-shards", merge(base, p("pool", 3, "k", 3, "ops", opPut, "vlens", 1, "index", 1, "shards", 1, "b_index", 1, "b_shards", 2)))
+			if tier != "quick" {
+				add("three-keys-skiplist-2-vs-hashmap-3-shards", merge(base, p("pool", 3, "k", 4, "ops", opPut|opDelete, "vlens", 1, "index", 2, "shards", 2, "b_index", 3, "b_shards", 3)))
+			}
 			js = append(js, JobSpec{Name: "witness", Harness: "root", Func: "verifHarnessC14", Params: merge(base, p("k", 1, "ops", opPut, "index", 3, "shards", 1, "b_index", 1, "witness", 1)), Scale: scaleDF(32), Witness: true})
 			return js
 		},
